@@ -310,6 +310,7 @@ def _account(ctx, chunks, plan_by_seed):
     wcase = {}
     drops = {}
     kern_calls = {}
+    deferred = ctx.steps.setdefault("_deferred_infra", [])   # vacuity findings are raised AFTER the trace validation: a broken tree must surface as its verdict, not as exit 2
     for ev in chunks:
         for b in tlc.split_blocks(ev):
             case, sig2 = _case_of(b)
@@ -330,11 +331,11 @@ def _account(ctx, chunks, plan_by_seed):
             if case["nproc"] > 1:
                 sites = {e["site"]: e["calls"] for e in b if e["e"] == "Kern"}
                 if not any(e["e"] == "Abort" for e in b) and any(e["e"] == "Axis" for e in b) and set(sites) != {"vm", "mv"}:
-                    raise InfraError("c02: forced nproc=%d but the slice hook (H3) did not fire in both MT kernels of the fit under test: %s (case %s)" % (case["nproc"], sites, case))
+                    deferred.append("c02: forced nproc=%d but the slice hook (H3) did not fire in both MT kernels of the fit under test: %s (case %s)" % (case["nproc"], sites, case))
                 for s_, c_ in sites.items():
                     kern_calls[s_] = kern_calls.get(s_, 0) + c_
             if any(e["e"] == "Axis" for e in b) and not any(e["e"] == "Stop" for e in b):
-                raise InfraError("c02: the iteration hook (H4) did not fire in the fit under test (case %s)" % case)
+                deferred.append("c02: the iteration hook (H4) did not fire in the fit under test (case %s)" % case)
             bt, bp = _bounds(sig2, case["n"], loc12=loc12)
             for e in b:
                 if e["e"] == "Axis" and e["k"] <= m:
@@ -372,7 +373,7 @@ def _account(ctx, chunks, plan_by_seed):
     if not ctx.quick and not ctx.classes.get("K6:nproc24"):
         missing.append("K6:nproc24")
     if missing:
-        raise InfraError("c02 recording does not exercise: %s (vacuous antecedents)" % missing)
+        deferred.append("c02 recording does not exercise: %s (vacuous antecedents)" % missing)
     ctx.steps["worst_observed_over_bound"] = {k: (round(v, 4) if isinstance(v, float) else v) for k, v in worst.items()}
     ctx.steps["worst_cases"] = wcase
     ctx.steps["cases"] = dict(run=ncase, dropped_outside_quantifier=ndrop, dropped_why=drops)
@@ -613,6 +614,9 @@ def run(ctx):
         bj, late = _binding_jobs(ctx, chunks)
         rej = _validate(ctx, chunks, plan_by_seed, "trace_spectral", 4 if ctx.quick else 10, extra_jobs=bj, late_jobs=late)
         ctx.traces(max(0, ncase - rej))
+        deferred = ctx.steps.pop("_deferred_infra", [])
+        if deferred:
+            raise InfraError(deferred[0] + (" (+%d more)" % (len(deferred) - 1) if len(deferred) > 1 else ""))
     finally:
         shutil.rmtree(rd, ignore_errors=True)
 
